@@ -20,8 +20,44 @@ def strip(st):
     return {k: v for k, v in st.items() if not k.startswith("_")}
 
 
+class ProgramTimeout(Exception):
+    pass
+
+
+def _alarm(signum, frame):
+    raise ProgramTimeout()
+
+
+PROGRAM_TIME_LIMIT = 150  # seconds per program; a slower one is dropped (counted), never a finding
+
+
+def _restart_lean():
+    global _runner_lean
+    try:
+        _runner_lean.p.kill()
+    except Exception:
+        pass
+    from leanio import Lean
+    _runner_lean = Lean()
+
+
 def run_generated(args):
     """generate a program online from (seed, focus, nsteps) and run it; returns a result dict"""
+    import signal
+    signal.signal(signal.SIGALRM, _alarm)
+    signal.alarm(PROGRAM_TIME_LIMIT)
+    try:
+        return _run_generated(args)
+    except ProgramTimeout:
+        _restart_lean()
+        seed, focus, nsteps, avoid_known = args
+        return {"seed": seed, "focus": focus, "findings": [], "cells": [], "known": [], "route_mismatches": [], "timeout": True,
+                "program": {"seed": seed, "setup": {"envs": [], "customs": [], "composites": []}, "steps": []}, "nontrivial": False, "stats": {}}
+    finally:
+        signal.alarm(0)
+
+
+def _run_generated(args):
     seed, focus, nsteps, avoid_known = args
     from engine import Runner, Finding
     from gen import Gen
@@ -37,8 +73,10 @@ def run_generated(args):
         R.check_invariants(-1)
         R.compare_states("C02", -1, what="initial joint state")
         i = 0
-        pre = g.prelude(R.w) if rng.random() < 0.7 else []
-        while i < nsteps + len(pre) and not R.findings:
+        pre = g.scenario(R.w) if rng.random() < 0.45 else []
+        if not pre:
+            pre = g.prelude(R.w) if rng.random() < 0.7 else []
+        while i < nsteps + len(pre) and not R.findings and not R.diverged:
             st = pre.pop(0) if pre else g.next_step(R.w)
             if st is None:
                 break
@@ -84,6 +122,19 @@ def valid_now(w, st):
 
 def run_fixed(prog):
     """replay a recorded program"""
+    import signal
+    signal.signal(signal.SIGALRM, _alarm)
+    signal.alarm(PROGRAM_TIME_LIMIT)
+    try:
+        return _run_fixed(prog)
+    except ProgramTimeout:
+        _restart_lean()
+        return {"findings": [], "known": [], "program": prog, "route_mismatches": [], "nontrivial": False, "stats": {}, "timeout": True}
+    finally:
+        signal.alarm(0)
+
+
+def _run_fixed(prog):
     from engine import Runner, Finding
     R = Runner(_runner_lean)
     try:
